@@ -450,12 +450,9 @@ Definition dump_bank (vals : list (string * wval)) (b : bank) : result string :=
 (* the bank's output prefix letter: what follows "stall_" *)
 Definition bank_letter (b : bank) : string := after_underscore (b_stall b).
 
-(* HashMap<char, &RegisterBank>: a later bank with the same letter replaces an earlier one *)
-Fixpoint find_bank (banks : list bank) (letter : string) (acc : option bank) : option bank :=
-  match banks with
-  | [] => acc
-  | b :: r => find_bank r letter (if String.eqb (bank_letter b) letter then Some b else acc)
-  end.
+(* HashMap<char, Vec<&RegisterBank>>: all banks with that output prefix letter, in declaration order *)
+Definition banks_with (banks : list bank) (letter : string) : list bank :=
+  filter (fun b => String.eqb (bank_letter b) letter) banks.
 
 Definition fixed_letters : list string := ["P"; "F"; "D"; "E"; "M"; "W"].
 
@@ -465,15 +462,21 @@ Fixpoint dedup (l : list string) : list string :=
   | x :: r => if mem_str x r then dedup r else x :: dedup r
   end.
 
+Fixpoint dump_bank_list (vals : list (string * wval)) (bs : list bank) : result string :=
+  match bs with
+  | [] => Ok ""
+  | b :: r =>
+      do t <- dump_bank vals b;
+      do rest <- dump_bank_list vals r;
+      Ok (t ++ rest)
+  end.
+
 Fixpoint dump_banks_in (vals : list (string * wval)) (banks : list bank) (letters : list string)
   : result string :=
   match letters with
   | [] => Ok ""
   | l :: r =>
-      do t <- match find_bank banks l None with
-              | Some b => dump_bank vals b
-              | None => Ok ""
-              end;
+      do t <- dump_bank_list vals (banks_with banks l);
       do rest <- dump_banks_in vals banks r;
       Ok (t ++ rest)
   end.
